@@ -30,10 +30,34 @@ type hashmap struct {
 }
 
 func hashKey(kt types.Type, k value) int {
+	switch k := k.(type) {
+	case string:
+		return len(k) // strings hash by length so that symbolic strings can be keys
+	case sstring:
+		return len(k.b)
+	}
 	if isSym(k) {
 		panic(unsupported("symbolic map key"))
 	}
 	return hash(kt, kt, k)
+}
+
+// keyEq compares two map keys; string keys with symbolic bytes are compared
+// by a solver-decided fork.
+func keyEq(kt types.Type, a, b value) bool {
+	_, as := a.(sstring)
+	_, bs := b.(sstring)
+	if as || bs {
+		t := seqEqTerm(byteSeq(a), byteSeq(b))
+		switch t {
+		case "true":
+			return true
+		case "false":
+			return false
+		}
+		return X.decide(t)
+	}
+	return equals(kt, a, b)
 }
 
 // makeMap returns an empty initialized map of key type kt.
@@ -47,7 +71,7 @@ func (m *hashmap) find(k value) *entry {
 	}
 	h := hashKey(m.keyType, k)
 	for e := m.table[h]; e != nil; e = e.next {
-		if !e.deleted && equals(m.keyType, k, e.key) {
+		if !e.deleted && keyEq(m.keyType, k, e.key) {
 			return e
 		}
 	}
